@@ -23,9 +23,10 @@ ASSUMPTIONS = [
     "queue_send is observed at the announcer (its transmission is C15)",
 ]
 BOUNDED = ST.BOUNDED + SA.BOUNDED
-EXPLANATION = "every operation that adds, refreshes or removes a subscription record is proved to keep the monitor invariant for all ids, counters, TTLs, endpoints, addresses and times; the number of simultaneously held other records and of options per entry is bounded in shape (bounded_stand_ins)"
+EXPLANATION = "every operation that adds, refreshes or removes a subscription record is proved to keep the monitor invariant for all ids, counters, TTLs, endpoints, addresses and times; the record store and the options of an entry are unbounded (bounded_stand_ins)"
 HARNESSES = ST.STORE_OBLIGATIONS + SA.SERVER_SUBSCRIPTION_OBLIGATIONS + SS.MESSAGE_RECEIVED_OBLIGATIONS
 EXPECT_COVERS = {
+    "ob_from_subscribe_entry": ["option", "result"],
     "ob_instance_handle_subscribe": ["not-mine", "stop-subscribe", "rejected", "accepted"],
     "ob_announcer_handle_subscribe": ["stop-subscribe", "subscribe"],
     "ob_subscriber_reboot": ["record"],
